@@ -1,5 +1,4 @@
-use super::swift_utils::parse_swift_chars;
-use crate::errors::ParseError;
+use super::field_utils::parse_multiline_text;
 use crate::traits::SwiftField;
 use serde::{Deserialize, Serialize};
 
@@ -30,28 +29,8 @@ impl SwiftField for Field79 {
     where
         Self: Sized,
     {
-        let mut lines = Vec::new();
-
-        // Parse up to 35 lines of 50 characters each
-        for line in input.lines().take(35) {
-            // Validate line length (max 50 characters)
-            if line.len() > 50 {
-                return Err(ParseError::InvalidFormat {
-                    message: format!("Field 79 line exceeds 50 characters: {}", line.len()),
-                });
-            }
-
-            // Validate SWIFT character set
-            parse_swift_chars(line, "Field 79 line")?;
-
-            lines.push(line.to_string());
-        }
-
-        if lines.is_empty() {
-            return Err(ParseError::InvalidFormat {
-                message: "Field 79 must contain at least one line".to_string(),
-            });
-        }
+        // 35*50x: every line is kept; more than 35 lines, a blank line or a line over 50 characters is an error
+        let lines = parse_multiline_text(input, 35, 50)?;
 
         Ok(Field79 { information: lines })
     }
